@@ -21,13 +21,18 @@ fn main() {
         run.replay_prefix = "seq-".into();
         run.replay_extra.lock().unwrap().insert("build".into(), json!("sequential"));
     }
+    // every run (and every replay) starts from a NON-initial reader state: 130 loads of a file that is rejected
+    // for nesting too deeply, on the calling thread and on every pool thread. Loading must not depend on what
+    // was loaded before, so nothing below may notice.
+    hostile_prelude();
     if let Mode::Replay(path) = run.mode.clone() {
         replay(&run, &path);
     }
+    run.assume("before the exploration the process loads a rejected (140-level) file 130 times on the calling thread and on every pool thread; the property must hold from that state as from a fresh one");
     run.rule(
         "items are enumerated without repetition (all byte strings of length <=2 over 256 bytes, k-tuples over the 28-symbol \
          sharp alphabet, all arrays of length <=3 and dictionaries with <=2 entries over the 24-atom menu, all object trees \
-         with <=4 nodes, stratified or all f32 bit patterns, id/generation/version/mark menus); an item is non-trivial when it \
+         with <=4 nodes, stratified or all f32 bit patterns, id/generation/version/mark menus; every sequence of <= 4 saves and edits on one Document value); an item is non-trivial when it \
          contains a byte outside [A-Za-z0-9], or two adjacent tokens, or a non-default file-level field; distinct by construction",
     );
     run.assume("object numbers <= 3,000,000 (the writer's cross-reference loops are linear in max_id)");
@@ -52,6 +57,7 @@ fn main() {
     trees(&run);
     reals(&run);
     file_level(&run);
+    resave(&run);
     closure(&run, if t { 3 } else { 2 });
     if let Ok(seq) = std::env::var("VERIF_SEQ_BIN") {
         let tier = if t { "thorough" } else { "quick" };
@@ -62,6 +68,39 @@ fn main() {
     }
     run.exhaustive(true);
     run.finish();
+}
+
+fn hostile_prelude() {
+    let mut body = vec![b'['; 140];
+    body.extend_from_slice(b"1");
+    body.extend(vec![b']'; 140]);
+    let mut f = b"%PDF-1.4\n".to_vec();
+    let off = f.len();
+    f.extend_from_slice(b"1 0 obj\n");
+    f.extend_from_slice(&body);
+    f.extend_from_slice(b"\nendobj\n");
+    let x = f.len();
+    f.extend_from_slice(format!("xref\n0 2\n0000000000 65535 f \n{:010} 00000 n \ntrailer\n<</Size 2/Root 1 0 R/Deep ", off).as_bytes());
+    f.extend_from_slice(&body);
+    f.extend_from_slice(format!(">>\nstartxref\n{}\n%%EOF", x).as_bytes());
+    // a file whose only defect is the depth of an ordinary object (the trailer is fine)
+    let mut g = b"%PDF-1.4\n".to_vec();
+    let off = g.len();
+    g.extend_from_slice(b"1 0 obj\n");
+    g.extend_from_slice(&body);
+    g.extend_from_slice(b"\nendobj\n");
+    let x = g.len();
+    g.extend_from_slice(format!("xref\n0 2\n0000000000 65535 f \n{:010} 00000 n \ntrailer\n<</Size 2/Root 1 0 R>>\nstartxref\n{}\n%%EOF", off, x).as_bytes());
+    let work = || {
+        for _ in 0..130 {
+            let _ = util::load(&f);
+            let _ = util::load(&g);
+        }
+    };
+    work();
+    // (in the sequential build the pool threads never parse anything; harmless there)
+    let w = &work;
+    rayon::broadcast(|_| w());
 }
 
 // ---------------------------------------------------------------------------------------------
@@ -273,6 +312,14 @@ fn reals(run: &Run) {
                 }
             }
         }
+        // hard cases of decimal -> binary conversion: the only two finite f32 values (found by a sweep over all
+        // 2^32 patterns) whose shortest decimal form, converted through f64 and narrowed, rounds to a
+        // neighbour (double rounding), with their neighbours
+        for h in [0x15ae43fdu32, 0x95ae43fd] {
+            for d in -2i32..=2 {
+                bits.push((h as i64 + d as i64) as u32);
+            }
+        }
         run.sample(json!({"part": "reals", "stratified": "exponents 0..254 x 64 mantissa patterns x sign", "example_bits": bits[12345], "value": format!("{}", f32::from_bits(bits[12345]))}));
         run.nontrivial(bits.len() as u64);
         run.add("reals_checked", bits.len() as u64);
@@ -316,6 +363,32 @@ fn check_real_block_one(run: &Run, bits: &[u32], table: bool) {
             report_item(run, "reals", &singles[j], table, &m);
         }
     }
+}
+
+// ---------------------------------------------------------------------------------------------
+// part 4b: documents that were saved before - every sequence (<= 4 steps, 5 in thorough) of
+// save(table|stream) / renumber / add / delete on ONE Document value; each save must load back
+// to the document as it is at that moment (state kept in the trailer or max_id must not leak)
+
+fn resave(run: &Run) {
+    let bases = docgen::start_docs();
+    let seqs = vharness::rt::resave_sequences(if run.thorough { 5 } else { 4 });
+    let nb = if run.thorough { 6 } else { 3 };
+    run.add("resave_sequences", (seqs.len() * nb) as u64);
+    run.nontrivial((seqs.len() * nb) as u64);
+    util::par_for(seqs.len(), |i| {
+        for (bi, base) in bases.iter().take(nb).enumerate() {
+            match vharness::rt::run_resave_with(base, &seqs[i], vharness::rt::lopdf_reader) {
+                Ok(n) => run.eval(n),
+                Err(m) => run.fail(
+                    None,
+                    json!({"kind": "resave", "build": BUILD, "base": bi, "ops": seqs[i].iter().map(|o| vharness::rt::RESAVE_OPS[*o]).collect::<Vec<_>>()}),
+                    &m,
+                    "every save of the same Document value loads back to the document as it is at that moment",
+                ),
+            }
+        }
+    });
 }
 
 // ---------------------------------------------------------------------------------------------
@@ -427,6 +500,11 @@ fn replay(run: &Run, path: &std::path::Path) -> ! {
             a
         }
         Some("doc") => check_doc(&doc_from_json(&case["doc"]), table),
+        Some("resave") => {
+            let bases = docgen::start_docs();
+            let ops: Vec<usize> = case["ops"].as_array().unwrap().iter().map(|o| vharness::rt::RESAVE_OPS.iter().position(|x| Some(*x) == o.as_str()).unwrap()).collect();
+            vharness::rt::run_resave_with(&bases[case["base"].as_u64().unwrap() as usize], &ops, vharness::rt::lopdf_reader).err()
+        }
         Some("closure") => {
             let start = doc_from_json(&case["start"]);
             let mut cur = start.clone();
